@@ -505,6 +505,32 @@ class History:
             self.kind("edit_source")
             self.note("edit_source(%s)  # declared late" % s)
             return self.edit(s, "%s edited %d\n" % (s, c))
+        if x < 0.08:
+            # targeted: edit a source upstream of something a command only reaches through a phony alias / an order-only input
+            want_alias = rnd.random() < 0.5
+            cands = []
+            for st in cmds:
+                fs = [g for f in st.ins + st.imps if man.is_alias(f) for g in man.alias_files(f)] if want_alias else self.order_inputs(st)
+                cands += [f for f in fs if man.producer(f) is not None and man.producer(f).kind == CMD]
+            srcs = []
+            if cands:
+                work, seen = [rnd.choice(cands)], set()
+                while work:
+                    f = work.pop()
+                    if f in seen:
+                        continue
+                    seen.add(f)
+                    pr = man.producer(f)
+                    if pr is None or f in man.phony_sources:
+                        if f in man.sources:
+                            srcs.append(f)
+                    else:
+                        work += pr.ins + pr.imps
+            if srcs:
+                s = rnd.choice(sorted(srcs))
+                self.kind("edit_source_behind_alias" if want_alias else "edit_source_behind_order_only")
+                self.note("edit_source(%s)  # upstream of %s" % (s, "a phony alias" if want_alias else "an order-only input"))
+                return self.edit(s, "%s edited %d\n" % (s, c))
         if x < 0.26:
             s = rnd.choice(man.sources)
             self.kind("edit_source")
